@@ -24,7 +24,9 @@ from typing import Any, Dict, List, Optional, Tuple
 ALPHABET = "ABCDEFGHIJKLMNOPQRSTUVWXYZ"
 
 GEOMETRIES = [(2, 3, None), (3, 2, None), (1, 1, None), (1, 4, None), (4, 1, None), (8, 12, None), (26, 2, None),
-              (1, 3, 2), (1, 2, 3), (1, 1, 1), (1, 3, 1), (1, 12, 8), (1, 2, 26)]
+              (1, 3, 2), (1, 2, 3), (1, 1, 1), (1, 3, 1), (1, 12, 8), (1, 2, 26),
+              # three-digit column numbers: "A100" sorts before "A11" as text
+              (2, 101, None), (1, 101, 2)]
 
 
 class _Unknown:
@@ -84,8 +86,27 @@ def _stored(stmts) -> List[ast.AST]:
     return out
 
 
-SAFE = {"len": len, "range": lambda *a: list(range(*a)), "enumerate": lambda x, start=0: [tuple(p) for p in enumerate(x, start)], "zip": lambda *a: [tuple(p) for p in zip(*a)],
-        "tuple": tuple, "list": list, "dict": dict, "set": set, "sorted": sorted, "reversed": lambda x: list(reversed(x)), "str": str, "int": int, "float": float, "bool": bool,
+class IteratorReuse(Exception):
+    pass
+
+
+class OneShot:
+    """zip / enumerate / reversed objects: iterators that can be consumed once. A second iteration is outside the fragment
+    (what is left after a short-circuiting any() is not modelled): it makes the evaluation UNKNOWN rather than guessing."""
+
+    def __init__(self, items):
+        self.items = list(items)
+        self.used = False
+
+    def __iter__(self):
+        if self.used:
+            raise IteratorReuse()
+        self.used = True
+        return iter(self.items)
+
+
+SAFE = {"len": len, "range": lambda *a: list(range(*a)), "enumerate": lambda x, start=0: OneShot(tuple(p) for p in enumerate(x, start)), "zip": lambda *a: OneShot(tuple(p) for p in zip(*a)),
+        "tuple": tuple, "list": list, "dict": dict, "set": set, "sorted": sorted, "reversed": lambda x: OneShot(reversed(x)), "str": str, "int": int, "float": float, "bool": bool,
         "min": min, "max": max, "sum": sum, "abs": abs, "chr": chr, "ord": ord, "any": any, "all": all, "divmod": divmod, "round": round, "frozenset": frozenset}
 TYPES = {"int": int, "float": float, "str": str, "bool": bool, "list": list, "tuple": tuple, "dict": dict}
 
@@ -661,6 +682,15 @@ class Interp:
                 if args[0] is UNK or any(v is UNK for v in kw.values()) and False:
                     return UNK
                 return NPArr(_deep_list(args[0])) if _no_unknown(args[0]) else UNK
+            if isinstance(fn.value, ast.Name) and fn.value.id in ("np", "numpy") and fn.attr == "atleast_1d" and len(args) == 1 and not kw:
+                a0 = args[0]
+                if isinstance(a0, NPArr):
+                    return a0
+                if isinstance(a0, (list, tuple)) and _no_unknown(a0):
+                    return NPArr(_deep_list(list(a0)))
+                if isinstance(a0, (str, int, float)) and not isinstance(a0, bool):
+                    return NPArr([a0])
+                return UNK
             if isinstance(fn.value, ast.Name) and fn.value.id in ("np", "numpy") and fn.attr in ("round", "around", "round_") and 1 <= len(args) <= 2:
                 dec = kw.get("decimals", args[1] if len(args) == 2 else 0)
                 x_ = args[0]
@@ -719,6 +749,8 @@ class Interp:
                     if len(dims) == 1 and dims[0] in (-1, len(flat)):
                         return NPArr(flat)
                     return UNK
+                if isinstance(recv, NPArr) and fn.attr in ("flatten", "ravel") and len(recv.shape) == 1 and set(kw) <= {"order"} and len(args) <= 1:
+                    return NPArr(list(recv.data))
                 if isinstance(recv, NPArr) and fn.attr in ("flatten", "ravel") and len(recv.shape) == 2:
                     order = kw.get("order", args[0] if args else "C")
                     rows = recv.data
@@ -794,6 +826,9 @@ def tables(ctx) -> List[Tuple[Tuple[int, int, Optional[int]], Dict[str, Any]]]:
         it.cls = f.cls
         try:
             it.block([s for s in f.node.body])
+        except IteratorReuse:
+            out.append(((rows, columns, vr), {k: UNK for k in ("_wells", "_indices", "_positions")}))
+            continue
         except _Signal as s:
             if s.kind not in ("return",):
                 out.append(((rows, columns, vr), {k: UNK for k in ("_wells", "_indices", "_positions")}))
@@ -870,6 +905,8 @@ def run_function(f, params: Dict[str, Any], prog=None, enums=None) -> Tuple[str,
     it.enums = dict(enums or {})
     try:
         it.block(list(f.node.body))
+    except IteratorReuse:
+        return "unknown", "an iterator is consumed twice"
     except _Signal as s:
         if s.kind == "return":
             return "return", s.value
